@@ -39,14 +39,17 @@ CHECKS = {
                      "system calls of the real SetMeta (strace) are validated by FileStoreTrace.tla.",
                 tech="TLA+ durability spec + exhaustive crash-point enumeration on the real code judged by TLC"),
     "C05": dict(cat="model_checking", ref="5 C05",
-                text="ReadPath.tla (reader acquisition steps: sequence, buffers, version - against insert/publish, rotation, flush "
-                     "install/drop) is model-checked as coded, and with each pair of steps swapped it must fail. Concurrent histories of "
+                text="ReadPath.tla (reader acquisition steps: register the sequence, buffers, version - against insert/publish, rotation, flush "
+                     "install/drop and a table compaction that drops shadowed entries below the oldest registered reader) is model-checked as "
+                     "coded; with a pair of steps swapped or the registration removed it must fail. Every schedule TLC enumerates from "
+                     "ReadPathGen.tla is forced on the real DB through gate hooks (four reader kinds) and the answers are judged by "
+                     "ReadPathTrace.tla. Concurrent histories of "
                      "the real DB (2-4 writers of cross-key batches incl. merged groups and oversize batches, point/snapshot/iterator "
                      "readers, a transaction user, a compactor; GOMAXPROCS 1/2/4/16) are validated by TLC (ConcTrace.tla): publications "
                      "bracketed by hook lines are the only state changes; each publication lies between call and return of its writers; "
                      "each read (a whole snapshot or iterator scan = one cut) is explained by ONE state whose index lies between the "
                      "publications completed at its call and begun at its return; a client's reads never go back.",
-                tech="TLA+ read-path spec + TLC validation of concurrent histories with publication-bracketing hook events"),
+                tech="TLA+ read-path spec + TLC-generated schedules forced on the real code through gates + TLC validation of concurrent histories"),
     "C09": dict(cat="model_checking", ref="5 C09",
                 text="Locks.tla (write lock, commit lock, transaction mutex, flush and table-compaction goroutines, Close, fault budget, "
                      "sticky manifest error) is model-checked: NoLeak, NoStuck and <>(all calls returned) under per-process fairness for "
@@ -120,7 +123,9 @@ CHECKS = {
                      "version or a version the reference loop still holds as referenced names it; iterators and snapshots held across "
                      "compactions keep validating against KV.tla; at settle points (readers released, background work drained, reference "
                      "loop synchronised) and after reopen the storage listing equals live tables + live journal + live manifest; after "
-                     "delete-all + full compaction table bytes fall below a bound.",
+                     "delete-all + full compaction table bytes fall below a bound; part of the programs run with one storage fault inside a "
+                     "table build (flush or compaction output) and are judged at the settle point after the failures stopped. RefLoop.tla "
+                     "(session.refLoop transcribed) is model-checked.",
                 tech="TLA+ monitors over reference/removal/settle events recorded from the real DB (TLC trace validation)"),
     "C08": dict(cat="fault_enumeration", ref="5 C08",
                 text="KV.tla's failed-write semantics (a write that returned an error is applied now, or in limbo until a reopen decides, "
@@ -150,12 +155,14 @@ CHECKS = {
                 text="Lifecycle actions of KV.tla (Close, Reopen read-only or not, SetReadOnly, SecondOpen, StorageQuiet) model-checked; "
                      "seeded lifecycle programs on the real DB (second Open refused, every public method after Close, double Close, "
                      "read-only open with data only in the journal, SetReadOnly, storage activity counted by the recording storage "
-                     "while read-only/after Close) validated by TLC against them.",
+                     "while read-only/after Close) validated by TLC against them. The real file storage is opened read-only on every "
+                     "post-crash directory FileStore.tla reaches (pending-rename files, damaged pointers): no stored file may change.",
                 tech="TLA+ lifecycle spec + TLC trace validation incl. storage-quiet observations"),
     "C20": dict(cat="model_checking", ref="5 C20",
                 text="The contract spec has no buffers; a hostile client scribbles over every argument buffer after the call returns and "
-                     "over every returned value, and checks that exposed iterator slices stay intact until the next move; all replies and "
-                     "the BufferIntact observations are validated by TLC against KV.tla.",
+                     "over every returned value, appends to exposed iterator slices, and checks that they stay intact until the next move; "
+                     "all replies and the BufferIntact observations are validated by TLC against KV.tla; concurrent histories (merged "
+                     "groups; large values copied out of write buffers that are being recycled) are validated by ConcTrace.tla.",
                 tech="TLA+ contract spec + TLC trace validation under a buffer-poisoning client"),
 }
 
